@@ -25,17 +25,17 @@ RULE = ("table rows = every (container id with a startPattern, member function) 
         "sequence contains a size-changing action. programs = C++ functions with 3-10 statements over one or two containers (construction "
         "from initialiser list / count / default, push/pop/insert/emplace/erase/clear/resize/assign/swap/append, guarded pops, loops, "
         "size-dependent branches) and 2-6 probes; non-trivial = cppcheck attached at least one Known/Impossible size fact to a probe")
-EXPLANATION = ("Proved in Lean: refinesB is sound for the effect relations; every row of the generated table except the listed unique-key "
-               "insertion rows (stdSet/stdMap insert, emplace, emplace_hint, try_emplace, insert_or_assign = action push: F6, counterexample "
-               "proved) assumes an effect that contains the reference effect of the C++ standard; for straight-line call sequences of any "
-               "length whose rows are sound, a Known size computed by the forward analysis equals the size in every execution. The reference "
-               "effects are hand-written from ISO C++17; loops, branches, aliasing, by-reference passing, iterators, constructors, "
+EXPLANATION = ("Proved in Lean: refinesB is sound for the effect relations; every row of the generated table assumes an effect that contains the "
+               "reference effect of the C++ standard (cfg_actions_sound, decided over the whole table; the rows unique-key insertion had "
+               "before 8c7e264 - action push, F6 - are kept as a regression counterexample); for straight-line call sequences of any length a "
+               "Known size computed by the forward analysis equals the size in every execution. The reference effects are hand-written from "
+               "ISO C++17; loops, branches, aliasing, by-reference passing, iterators, constructors / initialiser lists (F02b lives there), "
                "ContainerConditionHandler and operator[] of associative containers are outside the Lean model and only searched end-to-end, "
                "so level other.")
-THEOREMS = ["Cppcheck.ContainerSize.refinesB_sound", "Cppcheck.ContainerSize.cfg_actions_sound_partial",
-            "Cppcheck.ContainerSize.cfg_actions_unsound_rows_exact", "Cppcheck.ContainerSize.cfg_set_insert_counterexample",
-            "Cppcheck.ContainerSize.cfg_nonempty_after_push_sound", "Cppcheck.ContainerSize.known_size_sound",
-            "Cppcheck.ContainerSize.known_size_sound_table", "Cppcheck.ContainerSize.known_size_unsound_set_insert_counterexample"]
+THEOREMS = ["Cppcheck.ContainerSize.refinesB_sound", "Cppcheck.ContainerSize.cfg_actions_sound",
+            "Cppcheck.ContainerSize.cfg_set_insert_counterexample", "Cppcheck.ContainerSize.cfg_nonempty_after_push_sound",
+            "Cppcheck.ContainerSize.known_size_sound", "Cppcheck.ContainerSize.known_size_sound_table",
+            "Cppcheck.ContainerSize.known_size_unsound_set_insert_counterexample"]
 MODULES = ["Cppcheck.Props.C02"]
 
 ACTIONS = ["resize", "clear", "push", "pop", "find", "find-const", "insert", "erase", "append", "change-content", "change", "change-internal"]
@@ -539,27 +539,19 @@ def fact_holds(f, n):
 
 
 def classify(fn, probe_var, fact, observed):
-    """F6 / F02b classes.  Root: the probed container is a std::set / std::map, the fact claims more elements than the execution has,
-    and the container received a unique-key insertion (insert / emplace / ...) resp. was built from an initialiser list with >= 2
-    items.  Consequence: the probed container is another one, but the function branches on the size of such a set / map
-    (`v.size()` / `v.empty()` in a condition), so the wrong size fact decides which statements cppcheck thinks are executed."""
+    """F02b class.  Root: the probed container is a std::set / std::map built from an initialiser list with >= 2 items and the fact claims
+    more elements than the execution has.  Consequence: the probed container is another one, but the function branches on the size of
+    such a set / map (`v.size()` / `v.empty()` in a condition), so the wrong size fact decides which statements cppcheck thinks are
+    executed.  (Unique-key *insertion* — F6 — is repaired in cfg/std.cfg by 8c7e264 and is not excused any more.)"""
     kind, bound, v, _ = fact
     text = fn["text"]
     def pattern(var):
-        decl = re.search(r"std::(set|map)<[^>]*>\s+%s\b" % var, text)
-        if not decl:
-            return None
-        ins = re.search(r"\b%s\.(insert|emplace|emplace_hint|try_emplace|insert_or_assign)\(" % var, text)
-        init = re.search(r"std::(set|map)<[^>]*>\s+%s\s*(=\s*)?\{[^;]*,[^;]*\};" % var, text)
-        if ins:
-            return "unique-associative-insert-counted-as-push"
-        if init:
+        if re.search(r"std::(set|map)<[^>]*>\s+%s\s*(=\s*)?\{[^;]*,[^;]*\};" % var, text):
             return "unique-associative-initializer-list-counted-with-duplicates"
         return None
     claims_more = (kind == "K" and v > observed) or (kind == "I" and bound in ("P", "U") and v >= observed)
-    root = pattern(probe_var)
-    if root and claims_more:
-        return root
+    if pattern(probe_var) and claims_more:
+        return pattern(probe_var)
     for var in sorted(set(re.findall(r"std::(?:set|map)<[^>]*>\s+(\w+)", text))):
         if var != probe_var and pattern(var) and re.search(r"(if|while|for) \([^\n]*\b%s\.(size|empty)\(\)" % var, text):
             return pattern(var)
@@ -749,10 +741,11 @@ def run(ctx, res):
     rc, out, err = core.run_lines(drv, [], ops)
     want = [str(i) for i in range(len(ACTIONS))] + ["-"] + [str(i) for i in range(len(YIELDS))] + ["-"]
     res.oblig("table:model-enumerations-equal-loader-enumerations", out == want, "translation", "driver %s expected %s" % (out, want) if out != want else "")
-    # the rows the model calls unsound, as the driver computes them (the theorem cfg_actions_unsound_rows_exact pins the same list)
+    # the rows the model calls unsound, as the driver computes them (theorem cfg_actions_sound: none) - names the rows when the theorem breaks
     rc, snd, err = core.run_lines(drv, [], ["sound %s %s %d %d" % r for r in rows])
     unsound = ["%s.%s" % (r[0], r[1]) for r, s in zip(rows, snd) if s != "1"]
     res.extra["unsound_rows"] = unsound
+    res.oblig("table:no-unsound-row", not unsound, "translation", "" if not unsound else "rows whose configured action does not contain the reference effect: %s" % ", ".join(unsound[:12]))
     mark("table checks")
     run_straight(ctx, res, drv, meta, 2500 if thorough else 600)
     mark("straight-line correspondence")
